@@ -1,7 +1,7 @@
 \* exhaustive (thorough tier, next to Privileges_mc4.cfg which has no dynamic privileges): both dynamic
 \* privileges with their own grant-option flags, few static ones, GRANT/REVOKE ALL; every history of < MaxStep steps
 CONSTANTS
-  Users = {"u1", "u2"}
+  Users = {"u1"}
   Roles = {"r1"}
   Dbs = {"d1"}
   Tbls = {"t1"}
